@@ -24,9 +24,12 @@ static int parse(char *s) {
 
 int main (void) {
   static char line[1 << 20];
-  sexp ctx = sexp_make_eval_context(NULL, NULL, NULL, 0, 0);
+  sexp ctx = NULL;
   while (fgets(line, sizeof line, stdin)) {
     char *f[4]; int nf = 0;
+    /* a fresh context (fresh stack of the initial size) per request: growth must not leak into the next one */
+    if (ctx) sexp_destroy_context(ctx);
+    ctx = sexp_make_eval_context(NULL, NULL, NULL, 0, 0);
     line[strcspn(line, "\n")] = 0;
     for (char *t = strtok(line, " "); t && nf < 4; t = strtok(NULL, " ")) f[nf++] = t;
     sexp stack = sexp_context_stack(ctx);
